@@ -17,6 +17,9 @@ Inventory, reported but not armed: every iteration over a HashMap / HashSet with
    interval cases of FiniteDomain::intersect, with C18) - so hash-ordered domain updates commute;
    solving a conjunction parks its first goal (with C07) - so n answers of an infinite producer are
    reachable.
+ (round 5) the sort that launders hash order must key on the unique variable id (not the source name);
+   all arms of each FD propagator implement one relation (which arm runs depends on hash-ordered propagation);
+   the disequality re-check threads its state; the library's Disj interleaves.
 """
 import hirwalk
 import streams
@@ -217,7 +220,17 @@ def check_hash_order_commit(ctx, lib, rule):
         sorted_ids = set()
         for c in sym.subterms(t):
             if c[0] == "call" and c[1].split("::")[-1] in SORTERS and c[2] and c[2][0][0] == "letv":
-                sorted_ids.add(c[2][0][1])
+                # a sort launders hash order only if its key separates *distinct* variables: the unique id
+                # (payload 0 of Var).  The source name (payload 1) is shared by every evaluation of the same
+                # scope, and a stable sort keeps equal keys in their hash order.
+                total = True
+                if len(c[2]) > 1 and c[2][1][0] == "closure":
+                    body = c[2][1][3]
+                    varprojs = {(q[2].split("::")[-1], q[3]) for q in sym.subterms(body) if q[0] == "proj" and isinstance(q[2], str) and q[2].endswith("LTermInner::Var")}
+                    total = ("Var", 0) in varprojs
+                    ctx.expect(total, rule, "%s|sort-key-is-the-variable-id" % p, site_of(fn), "the sort that fixes the labelling order must key on the variable's unique id (Var payload 0); it keys on %s - variables with equal keys keep their hash-iteration order" % (sorted(varprojs) or "no variable payload"))
+                if total:
+                    sorted_ids.add(c[2][0][1])
 
         def find_hash_seq(x, depth=0):
             """First hash-container iteration that reaches `x` as a sequence, not looking through a
@@ -282,3 +295,25 @@ def run(ctx, fb, cfg):
     for f in ("crate::operator::conj::Conj::new", "crate::operator::conj::DFSConj::new", "crate::operator::conj::InferredConj::new"):
         C07.check_new_never_identity(ctx, lib, R + "K3.conjunction-parks-first-goal", f)
     C07.check_suspension(ctx, lib, R + "K1.conjunction-parks-first-goal")
+    # the pairs of a stored disequality are re-checked as one conjunction of equations (state threaded): tested one
+    # by one, conflicting bindings overwrite each other in hash order and the residual constraint varies per run
+    import C02
+
+    C02.check_run(ctx, lib, R + "K3K6.diseq-recheck-threads")
+    # which of two overlapping disequalities survives normalisation must be decided by subsumption, the same
+    # way whatever order the store is iterated in
+    C02.check_normalize(ctx, lib, R + "K6.normalize")
+    C02.check_subsumes(ctx, lib, R + "K3.subsumes")
+    # the library's own Disj interleaves (BFS merge): a depth-first merge starves the right branch of `take(n)`
+    streams.check_disj_solve(ctx, lib, streams.BFS, R + "K3.disj", "<crate::operator::disj::Disj as crate::solver::Solve>::solve")
+    # which arm of a propagator runs depends on what the other constraints of the same (hash-ordered) pass have
+    # already pinned; the outcome is order-free only if all arms implement the one relation (tables shared with C16/C17)
+    if any(p.startswith("crate::relation::clpfd") for p in lib.fns):
+        import fdrules
+
+        # one pass over the hash-ordered store gives a result that depends on the order; running it to the fixpoint
+        # (until the substitution stops growing, nothing else) is what makes the outcome order-free (with C16/C04)
+        fdrules.check_restale(ctx, lib, R + "K2K3.fixpoint-not-one-pass")
+        fdrules.check_ltefd(ctx, lib, R + "K7.ltefd-arms-agree")
+        for mod in ("plusfd", "minusfd", "timesfd"):
+            fdrules.check_arith_propagator(ctx, lib, R + "K7.arith-arms-agree", mod, what="both")
